@@ -435,31 +435,40 @@ func runC04(c *Ctx) {
 		reader := c.P.Method("service", "connection", "reader")
 		ok, d := false, "the reader does not call parse with buffer[:n] of the preceding Read"
 		if reader != nil {
-			for _, b := range reader.Blocks {
-				for _, ins := range b.Instrs {
-					call, isC := ins.(*ssa.Call)
-					if !isC || call.Call.StaticCallee() == nil || call.Call.StaticCallee().Name() != "parse" {
-						continue
+			for _, rf := range c.familyOf(reader) {
+				for _, b := range rf.Blocks {
+					for _, ins := range b.Instrs {
+						call, isC := ins.(*ssa.Call)
+						if !isC || call.Call.StaticCallee() == nil || call.Call.StaticCallee().Name() != "parse" {
+							continue
+						}
+						// the window, followed through the parameters of helpers the read loop was split into
+						var sl *ssa.Slice
+						isSl := false
+						for _, av := range c.resolveParam(call.Call.Args[1], "service") {
+							if s2, ok2 := av.(*ssa.Slice); ok2 {
+								sl, isSl = s2, true
+							}
+						}
+						if !isSl || sl.Low != nil {
+							d = "parse is not given buffer[:n]"
+							continue
+						}
+						ex, isEx := sl.High.(*ssa.Extract)
+						if !isEx || ex.Index != 0 {
+							continue
+						}
+						rd, isRd := ex.Tuple.(*ssa.Call)
+						rdName := ""
+						if isRd {
+							rdName, _ = callMethodName(rd)
+						}
+						if !isRd || rdName != "Read" || !sameBufferValue(rd.Call.Args[len(rd.Call.Args)-1], sl.X) {
+							d = "the window handed to parse is not the buffer the Read filled"
+							continue
+						}
+						ok, d = true, ""
 					}
-					sl, isSl := call.Call.Args[1].(*ssa.Slice)
-					if !isSl || sl.Low != nil {
-						d = "parse is not given buffer[:n]"
-						continue
-					}
-					ex, isEx := sl.High.(*ssa.Extract)
-					if !isEx || ex.Index != 0 {
-						continue
-					}
-					rd, isRd := ex.Tuple.(*ssa.Call)
-					rdName := ""
-					if isRd {
-						rdName, _ = callMethodName(rd)
-					}
-					if !isRd || rdName != "Read" || !sameBufferValue(rd.Call.Args[len(rd.Call.Args)-1], sl.X) {
-						d = "the window handed to parse is not the buffer the Read filled"
-						continue
-					}
-					ok, d = true, ""
 				}
 			}
 		}
